@@ -4,8 +4,8 @@ package main
 
 import (
 	"crypto/hmac"
-	"encoding/pem"
 	"crypto/sha256"
+	"encoding/pem"
 	"fmt"
 	"io"
 	"net/http"
@@ -42,68 +42,68 @@ const (
 // proxyCfg is the harness's description of a proxy configuration; opts() turns it into
 // real options, and the suites also hand it to the model.
 type proxyCfg struct {
-	Redis              bool
-	CookieName         string
-	CookieSecret       string
-	CookieExpire       time.Duration
-	CookieRefresh      time.Duration
-	CookieDomains      []string
-	CookiePath         string
-	CookieSecure       bool
-	CookieHTTPOnly     bool
-	CookieSameSite     string
-	CSRFPerRequest     bool
-	CSRFExpire         time.Duration
-	EncodeState        bool
-	PKCE               string
-	SkipNonce          bool
-	SkipProviderButton bool
-	ForceJSON          bool
-	APIRoutes          []string
-	SkipAuthRoutes     []string
-	SkipAuthRegex      []string
-	SkipPreflight      bool
-	TrustedIPs         []string
-	ReverseProxy       bool
-	RealClientIPHeader string
-	Whitelist          []string
-	EmailDomains       []string
-	EmailsFile         string
-	AllowedGroups      []string
-	SkipJwtBearer      bool
-	ExtraAudiences     []string
-	AudienceClaims     []string
-	AllowUnverified    bool
-	EmailClaim         string
-	GroupsClaim        string
-	UserIDClaim        string
-	Htpasswd           map[string]string // user → password (sha1 entries are generated)
-	HtpasswdGroups     []string
-	ForceHTTPS         bool
-	InjectRequest      []options.Header
-	InjectResponse     []options.Header
-	Upstreams          []options.Upstream // when nil: a single "/" upstream
-	PassAccessToken    bool
-	RedirectURL        string
-	BackendLogout      bool
+	Redis                 bool
+	CookieName            string
+	CookieSecret          string
+	CookieExpire          time.Duration
+	CookieRefresh         time.Duration
+	CookieDomains         []string
+	CookiePath            string
+	CookieSecure          bool
+	CookieHTTPOnly        bool
+	CookieSameSite        string
+	CSRFPerRequest        bool
+	CSRFExpire            time.Duration
+	EncodeState           bool
+	PKCE                  string
+	SkipNonce             bool
+	SkipProviderButton    bool
+	ForceJSON             bool
+	APIRoutes             []string
+	SkipAuthRoutes        []string
+	SkipAuthRegex         []string
+	SkipPreflight         bool
+	TrustedIPs            []string
+	ReverseProxy          bool
+	RealClientIPHeader    string
+	Whitelist             []string
+	EmailDomains          []string
+	EmailsFile            string
+	AllowedGroups         []string
+	SkipJwtBearer         bool
+	ExtraAudiences        []string
+	AudienceClaims        []string
+	AllowUnverified       bool
+	EmailClaim            string
+	GroupsClaim           string
+	UserIDClaim           string
+	Htpasswd              map[string]string // user → password (sha1 entries are generated)
+	HtpasswdGroups        []string
+	ForceHTTPS            bool
+	InjectRequest         []options.Header
+	InjectResponse        []options.Header
+	Upstreams             []options.Upstream // when nil: a single "/" upstream
+	PassAccessToken       bool
+	RedirectURL           string
+	BackendLogout         bool
 	SkipClaimsFromProfile bool
-	CookieMinimal      bool
+	CookieMinimal         bool
 }
 
 type testEnv struct {
-	cfg      proxyCfg
-	opts     *options.Options
-	proxy    *OAuthProxy
-	idp      *fakeIDP
-	ups      map[string]*fakeUpstream
-	mr       *miniredis.Miniredis
-	tmp      string
-	c        *suiteCtx
-	panics   int
-	lastPanic string
-	rec      *recorder
-	emitCookieOps bool // emit a `mkcookie` model comparison for every Set-Cookie (suite cookieattrs)
-	redisFault map[string]string // upper-case command → "before" | "after" (one shot)
+	cfg           proxyCfg
+	opts          *options.Options
+	proxy         *OAuthProxy
+	idp           *fakeIDP
+	ups           map[string]*fakeUpstream
+	mr            *miniredis.Miniredis
+	tmp           string
+	c             *suiteCtx
+	panics        int
+	lastPanic     string
+	rec           *recorder
+	emitCookieOps bool              // emit a `mkcookie` model comparison for every Set-Cookie (suite cookieattrs)
+	redisFault    map[string]string // upper-case command → "before" | "after" (one shot)
 }
 
 func (e *testEnv) close() {
